@@ -95,7 +95,7 @@ def ES (i : Nat) (e : Entry) (o w : Tree) : Tree := (entryStep i (o, w) e).2
 theorem entryStep_pair (i : Nat) (e : Entry) (o w : Tree) : entryStep i (o, w) e = (ES i e o o, ES i e o w) := by
   unfold ES entryStep
   by_cases h : (o.get e.p).isSome
-  · simp [h]
+  · by_cases hu : upgrades o e = true <;> simp [h, hu]
   · simp only [h]
     rw [pf_diag i (parents e.p) o w]
     rfl
@@ -105,11 +105,17 @@ theorem processEntryC_eq_ptw (i : Nat) (chains : List Tree) (hi : i < chains.len
   unfold processEntryC
   by_cases h : ((chains.getD i emptyTree).get e.p).isSome
   · rw [if_pos h]
-    have : ptw i (ES i e) chains = ptw i (fun _ w => w) chains := by
-      unfold ptw ES entryStep
-      generalize chains.getD i emptyTree = o at h
-      simp [h]
-    rw [this, ptw_id]
+    by_cases hu : upgrades (chains.getD i emptyTree) e = true
+    · rw [if_pos hu]
+      unfold upgradeAll ptw ES entryStep
+      generalize chains.getD i emptyTree = o at h hu
+      simp [h, hu]
+    · rw [if_neg hu]
+      have : ptw i (ES i e) chains = ptw i (fun _ w => w) chains := by
+        unfold ptw ES entryStep
+        generalize chains.getD i emptyTree = o at h hu
+        simp [h, hu]
+      rw [this, ptw_id]
   · rw [if_neg h]
     unfold fillEntry populate
     rw [populate_eq_ptw i _ chains hi, fillNode_eq_ptw, ptw_ptw i _ _ chains hi]
